@@ -175,6 +175,9 @@ fn junk_line(rng: &mut Rng) -> String {
     line
 }
 
+const EDGE_NUMS: [&str; 16] = ["0", "1", "2", "255", "256", "65535", "65536", "2147483647", "2147483648", "4294967295", "4294967296",
+    "9223372036854775807", "9223372036854775808", "18446744073709551615", "18446744073709551616", "00"];
+
 fn go_line(rng: &mut Rng) -> String {
     // only ever *parsed* in-process (P lines); never executed
     let keys = ["depth", "nodes", "movetime", "wtime", "btime", "winc", "binc", "infinite", "searchmoves", "ponder", "mate", "movestogo", "bogus"];
@@ -184,10 +187,11 @@ fn go_line(rng: &mut Rng) -> String {
         s.push_str(keys[rng.below(keys.len() as u64) as usize]);
         if rng.below(4) != 0 {
             s.push(' ');
-            if rng.below(3) == 0 {
-                s.push_str(JUNK[rng.below(JUNK.len() as u64) as usize]);
-            } else {
-                s.push_str(&rng.below(100_000).to_string());
+            match rng.below(6) {
+                0 => s.push_str(JUNK[rng.below(JUNK.len() as u64) as usize]),
+                // numbers on the edges of the integer types: zero divisors, off-by-one, overflow
+                1 | 2 | 3 => s.push_str(EDGE_NUMS[rng.below(EDGE_NUMS.len() as u64) as usize]),
+                _ => s.push_str(&rng.below(100_000).to_string()),
             }
         }
     }
